@@ -339,8 +339,30 @@ def run(ctx, be=None):
         ctx.count('shape', m.get('shape')); ctx.count('labeling', m.get('labeling')); ctx.count('order', m.get('order'))
         ctx.count('kind', kind)
         RUNNERS[kind](ctx, case, be)
+    if be is None:
+        backend_sample(ctx)
     if not ctx.quick():
         exhaustive_small(ctx)
+
+
+def backend_sample(ctx):
+    """C10's own sample of the non-default configurations a user may run (`navis.utils.fastcore = None`; additionally
+    `navis.config.use_igraph = False`): the zero-based suite (node 0 as root / node 0 mid-path), the fixed cross product's reroots and a
+    slice of the generated streams.  (harness/c04.py re-runs the full streams under every back-end.)"""
+    import itertools, time
+    from .backends import available
+    for b in [x for x in available() if x != 'fastcore']:
+        t0 = time.time()
+        with backend(b):
+            p = 0.08 if ctx.quick() else 0.5
+            fixed = [(k, c) for k, c in X.fixed_suite() if k in ('rerootx', 'prune', 'cutx') and ctx.rng.random() < (3 * p if k == 'rerootx' else p)]
+            for kind, case in itertools.chain(X.zero_suite(), fixed, gen_cases(ctx, ctx.budget(3, 40))):
+                if kind not in BACKEND_STREAMS and kind != 'subsetx':
+                    continue
+                ctx.case(dict(case, kind=kind, be=b, stream='c10'), nontrivial=len(case['rows']) >= 3)
+                ctx.count('backend_sample', f'{b}/{kind}')
+                RUNNERS[kind](ctx, case, b)
+        ctx.notes.append(f'back-end sample [{b}]: {round(time.time() - t0, 1)} s')
 
 
 def exhaustive_small(ctx):
@@ -391,6 +413,9 @@ def exhaustive_small(ctx):
 
 
 def replay(ctx, rp):
+    import contextlib
     case = rp['case']
     ctx.case(case)
-    RUNNERS[case['kind']](ctx, {k: v for k, v in case.items() if k != 'kind'}, case.get('be'))
+    be = case.get('be')
+    with (backend(be) if be else contextlib.nullcontext()):
+        RUNNERS[case['kind']](ctx, {k: v for k, v in case.items() if k not in ('kind', 'be', 'stream')}, be)
